@@ -762,3 +762,159 @@ pub fn mon_c05_invalid(log: &[Rec], m: &mut Mon) {
         .collect();
     m.judge("c05-invalid-app-set-never-starts", bad.is_empty(), "", || format!("app set contains an invalid app but the machine acted: {:?}", bad));
 }
+
+// ---------------------------------------------------------------------------------------------
+// C12: scheduled checks wait for the policy's time and minimum wait
+
+pub fn mon_c12(log: &[Rec], m: &mut Mon) {
+    const REBOOT_NS: u128 = 1_800_000_000_000;
+    #[derive(Default)]
+    struct Wait {
+        answer: Option<TimingSnap>,
+        announced: bool,
+        timers: Vec<(usize, TimerSpec)>,
+        fired: Vec<usize>,
+        armed_complete_checked: bool,
+    }
+    let mut wait: Option<Wait> = None; // the wait whose timers gate the next unrequested check / ping
+    let mut in_reboot_wait = false;
+    let mut reboot_timer: Option<(usize, bool)> = None; // id, fired
+    let mut reboot_asks = 0usize;
+    // control requests: (req id, on_demand, replied, used to justify a reboot question)
+    let mut reqs: Vec<(usize, bool, bool, bool)> = vec![];
+    let mut check_wait_timers = |m: &mut Mon, w: &mut Wait, ctx: &str| {
+        if w.armed_complete_checked {
+            return;
+        }
+        w.armed_complete_checked = true;
+        let Some(a) = w.answer else { return };
+        let mut want = vec![TimerSpec::Until(a.time)];
+        if let Some(mw) = a.min_wait_ns {
+            want.push(TimerSpec::For(mw));
+        }
+        let mut got: Vec<TimerSpec> = w.timers.iter().map(|t| t.1).collect();
+        let same = got.len() == want.len() && want.iter().all(|x| {
+            if let Some(i) = got.iter().position(|g| g == x) {
+                got.remove(i);
+                true
+            } else {
+                false
+            }
+        });
+        m.judge("c12-timers-armed-exactly", same, if w.timers.len() < want.len() { "missing" } else if w.timers.len() > want.len() { "extra" } else { "wrong-argument" }, || {
+            format!("{}: policy answered {:?}; timers armed {:?}; expected exactly {:?}", ctx, a, w.timers, want)
+        });
+    };
+    for r in log {
+        match &r.ev {
+            Ev::Restart | Ev::Built => {
+                wait = None;
+                in_reboot_wait = false;
+                reboot_timer = None;
+                reqs.clear();
+            }
+            Ev::PolicyNext { answer, .. } => {
+                wait = Some(Wait { answer: Some(*answer), ..Default::default() });
+            }
+            Ev::Taken(EvSnap::Schedule(s)) => {
+                if let Some(w) = wait.as_mut() {
+                    if !w.announced && w.timers.is_empty() {
+                        w.announced = true;
+                        m.judge("c12-next-update-time-announced", s.next == w.answer, "", || format!("ScheduleChange at seq {} announces {:?}, policy answered {:?}", r.seq, s.next, w.answer));
+                    }
+                }
+            }
+            Ev::TimerArm { id, spec } => {
+                if in_reboot_wait && *spec == TimerSpec::For(REBOOT_NS) && !matches!(&wait, Some(w) if w.answer.and_then(|a| a.min_wait_ns) == Some(REBOOT_NS) && w.timers.len() < 2 && w.announced) {
+                    reboot_timer = Some((*id, false));
+                } else if let Some(w) = wait.as_mut() {
+                    if matches!(spec, TimerSpec::For(d) if *d < 10_000_000_000 && w.answer.and_then(|a| a.min_wait_ns) != Some(*d)) {
+                        // a retry back-off inside a check: not a scheduling timer
+                    } else {
+                        m.judge("c12-wait-preceded-by-policy-question", w.answer.is_some() && w.announced, "", || format!("timer armed at seq {} before the schedule was computed and announced", r.seq));
+                        w.timers.push((*id, *spec));
+                    }
+                } else if !matches!(spec, TimerSpec::For(d) if *d < 10_000_000_000) {
+                    m.judge("c12-wait-preceded-by-policy-question", false, "no-question", || format!("timer {:?} armed at seq {} without a preceding compute_next_update_time", spec, r.seq));
+                }
+            }
+            Ev::TimerFire { id } => {
+                if let Some(w) = wait.as_mut() {
+                    if w.timers.iter().any(|t| t.0 == *id) {
+                        w.fired.push(*id);
+                    }
+                }
+                if let Some((rid, f)) = reboot_timer.as_mut() {
+                    if rid == id {
+                        *f = true;
+                    }
+                }
+            }
+            Ev::CtlSend { req, on_demand, .. } => reqs.push((*req, *on_demand, false, false)),
+            Ev::CtlReply { req, .. } => {
+                if let Some(x) = reqs.iter_mut().find(|x| x.0 == *req) {
+                    x.2 = true;
+                }
+            }
+            Ev::PolicyCheckAllowed { .. } => {
+                if let Some(w) = wait.as_mut() {
+                    check_wait_timers(m, w, "before update_check_allowed");
+                    let all_fired = !w.timers.is_empty() && w.timers.iter().all(|t| w.fired.contains(&t.0));
+                    // a request that is still unanswered may be what started this check
+                    if !reqs.iter().any(|x| !x.2) {
+                        // nobody asked for this check: every timer of the wait must have fired
+                        m.judge("c12-unrequested-check-after-all-timers", all_fired, &format!("{}of{}", w.fired.len(), w.timers.len()), || {
+                            format!("update_check_allowed at seq {} without any control request; timers of the wait {:?}, fired {:?}", r.seq, w.timers, w.fired)
+                        });
+                    }
+                } else {
+                    m.judge("c12-wait-preceded-by-policy-question", false, "check-without-wait", || format!("update_check_allowed at seq {} without a preceding wait", r.seq));
+                }
+                wait = None;
+            }
+            Ev::Taken(EvSnap::State(StateSnap::WaitingForReboot)) => {
+                in_reboot_wait = true;
+                reboot_timer = None;
+                reboot_asks = 0;
+                wait = None;
+            }
+            Ev::Taken(EvSnap::State(StateSnap::Idle)) => {
+                in_reboot_wait = false;
+                reboot_timer = None;
+            }
+            Ev::PolicyRebootAllowed { .. } => {
+                if in_reboot_wait {
+                    if reboot_asks > 0 {
+                        let timer_fired = matches!(reboot_timer, Some((_, true)));
+                        // an on-demand request that is still unanswered in the log (its reply is
+                        // recorded after the poll) and has not yet justified a question
+                        let od = reqs.iter_mut().find(|x| x.1 && !x.2 && !x.3);
+                        let od_ok = od.is_some();
+                        m.judge("c12-reboot-question-reasked-only-on-timer-or-on-demand", timer_fired || od_ok, "", || {
+                            format!("reboot_allowed re-asked at seq {}: its 30-minute timer fired={} unanswered on-demand request={}", r.seq, timer_fired, od_ok)
+                        });
+                        if timer_fired {
+                            reboot_timer = None;
+                        } else if let Some(x) = od {
+                            x.3 = true;
+                        }
+                    }
+                    reboot_asks += 1;
+                }
+            }
+            Ev::HttpReq { kind: ReqKind::Ping, .. } => {
+                if let Some(w) = wait.as_mut() {
+                    check_wait_timers(m, w, "before ping");
+                    let all_fired = !w.timers.is_empty() && w.timers.iter().all(|t| w.fired.contains(&t.0));
+                    m.judge("c12-ping-after-all-timers", all_fired, &format!("{}of{}", w.fired.len(), w.timers.len()), || {
+                        format!("ping at seq {}: timers of the wait {:?}, fired {:?}", r.seq, w.timers, w.fired)
+                    });
+                } else {
+                    m.judge("c12-ping-after-all-timers", false, "no-wait", || format!("ping at seq {} without a computed wait", r.seq));
+                }
+                wait = None;
+            }
+            _ => {}
+        }
+    }
+}
